@@ -1270,6 +1270,9 @@ func (g *gen) ssetCase(m, l int) {
 // Run generates the C15 cases.
 func Run(r *hk.Run) {
 	g := &gen{r: r, ex: NewExec()}
+	// hk.NewRand(n) and hk.NewRand(n+1) are the same splitmix64 stream shifted by one draw, so
+	// neighbouring seeds would generate almost the same cases: re-seed from a mixed output.
+	r.R = hk.NewRand(r.R.U64() ^ 0xC15C15C15)
 	rnd := r.R
 	r.Res.Rule = "cases: (a) WriteFileFromReader for lengths around 0/1/64KiB/256KiB/1MiB(+multiples) x content kinds (zero, const, random, rollsum-dense windows, mixed) x reader fragmentations (plain, 1-byte, short reads, data+EOF); (b) generated part trees (depth<=3, offsets, sub-ranges, holes, nested bytes; some ill-formed) x every (off,len) through ReadAt, Seek+Read, ForeachChunk; (c) static sets for limit M in 3..10 and the shipped limit, member counts around M, M^2, M^3. distinct = distinct (content kind, reader, length) writes + distinct trees + distinct (M, count); non-trivial = a write of >= 1 byte, a tree with >= 1 part, a set with > M members"
 
